@@ -610,10 +610,16 @@ func runManyChannels(c manyCase) (f *vh.Failure) {
 func TestManyChannelsOverTime(t *testing.T) {
 	gen := func(rt *rapid.T) manyCase {
 		c := manyCase{Total: rapid.SampledFrom([]int{40, 130, 260, 300, 520}).Draw(rt, "total"), Open: rapid.IntRange(1, 16).Draw(rt, "open"), Procs: rapid.SampledFrom([]int{1, 4}).Draw(rt, "procs")}
-		if vh.Thorough() && rapid.IntRange(0, 9).Draw(rt, "long") == 0 {
-			c.Total = rapid.SampledFrom([]int{1030, 4100, 33000}).Draw(rt, "total2")
+		if vh.Thorough() {
+			// (the scripted server re-reads everything written so far: long histories are slow)
+			switch x := rapid.IntRange(0, 39).Draw(rt, "long"); {
+			case x == 0:
+				c.Total = 33000
+			case x < 6:
+				c.Total = rapid.SampledFrom([]int{1030, 4100}).Draw(rt, "total2")
+			}
 		}
 		return c
 	}
-	vh.Check(t, "TestManyChannelsOverTime", vh.N(4, 40), gen, runManyChannels)
+	vh.Check(t, "TestManyChannelsOverTime", vh.N(4, 16), gen, runManyChannels)
 }
